@@ -463,6 +463,21 @@ def _flatten_merge_body(prog, c, body):
         call = None
         if isinstance(st, ast.Assign) and isinstance(st.value, ast.Call) and isinstance(st.value.func, ast.Name):
             call = st.value
+        if call is None and isinstance(st, ast.Assign) and isinstance(st.value, ast.Call) and isinstance(st.value.func, ast.Attribute) \
+                and isinstance(st.value.func.value, ast.Name) and st.value.func.value.id == "self" and not st.value.keywords:
+            rm = prog.find_method(c, st.value.func.attr)
+            if rm is not None:
+                h = rm[1]
+                hb = [x for x in h.body if not (isinstance(x, ast.Expr) and isinstance(x.value, ast.Constant))]
+                params = [a.arg for a in h.args.args][1:]
+                if any(isinstance(x, ast.While) for x in hb) and hb and isinstance(hb[-1], ast.Return) and \
+                        len(params) == len(st.value.args):
+                    for pn, av in zip(params, st.value.args):
+                        out.append(ast.Assign([ast.Name(pn, ast.Store())], copy.deepcopy(av)))
+                    out.extend(copy.deepcopy(hb[:-1]))
+                    out.append(ast.Assign(copy.deepcopy(st.targets), copy.deepcopy(hb[-1].value)))
+                    changed = True
+                    continue
         if call is not None and call.func.id in c.module.functions and not call.keywords:
             h = c.module.functions[call.func.id]
             hb = [x for x in h.body if not (isinstance(x, ast.Expr) and isinstance(x.value, ast.Constant))]
